@@ -1,4 +1,5 @@
 import Crusta.Proofs.Writers
+import Crusta.Proofs.RoundTrip
 
 /-! # C14 — written frameworks and answers read back (property theorems) -/
 
@@ -35,5 +36,20 @@ theorem extension_is_one_line (ext : List Str) (h : ∀ l ∈ ext, ∀ c ∈ l, 
     · exact h l hl c hcl
 
 example : parseExtIccma (writeExtIccma [strOf "1", strOf "12"]) = some [strOf "1", strOf "12"] := by decide
+
+/-- **a framework written in Aspartix format reads back as the same framework**: same labels in the
+same order, same attacks (model of `AspartixWriter` = `writeApx` on the live labels in id order and
+the live attacks; labels valid identifiers, as the reader requires) -/
+theorem framework_roundtrip (labels : List Str) (atts : List (Nat × Nat))
+    (hv : ∀ l ∈ labels, ValidId l) (hnd : labels.Nodup)
+    (ha : ∀ p ∈ atts, p.1 < labels.length ∧ p.2 < labels.length) (hand : atts.Nodup) :
+    readApx (encodeUtf8 (writeApx labels (atts.map (fun p => (labels.getD p.1 [], labels.getD p.2 [])))))
+      = .ok ⟨labels, atts⟩ := apx_write_read labels atts hv hnd ha hand
+
+/-- the identifiers the writer may be given are exactly those the reader can return -/
+theorem reader_labels_are_valid (l lab : Str) (h : matchArg l = some lab) : ValidId lab := matchArg_validId l lab h
+
+/-- UTF-8 encoding and decoding are inverse on scalar values (labels may contain non-ASCII digits) -/
+theorem utf8_roundtrip (s : Str) (h : ∀ c ∈ s, Scalar c) : decodeUtf8 (encodeUtf8 s) = some s := decode_encode s h
 
 end Crusta.C14
